@@ -98,6 +98,95 @@ func crafted() []corpus.Seed {
 	return out
 }
 
+// countTypes are the full boxes whose payload starts with version/flags
+// followed (at payload offset 4, for most of them) by a count or size field
+// that drives loops and allocations.
+var countTypes = []string{"trun", "stts", "stsz", "stsc", "stco", "co64", "ctts", "stss", "sdtp", "saiz", "saio", "senc", "sbgp", "sgpd",
+	"subs", "elst", "sidx", "tfra", "tfhd", "emsg", "pssh", "stsd", "dref", "cslg", "leva", "ssix", "trep", "mfro", "tfdt", "mehd"}
+
+// lattice builds, for every count-bearing box type, the version x flags x
+// count x truncation lattice applied to the first instance of that type in
+// the smallest corpus file containing it (in context: moof/traf/senc is only
+// parsed inside a file) and to the smallest stand-alone instance.
+func lattice() []corpus.Seed {
+	var out []corpus.Seed
+	var flagSet []uint32
+	for _, lo := range []uint32{0, 1, 2, 3, 4, 5, 6, 7} {
+		for _, hi := range []uint32{0, 0x100, 0x200, 0x400, 0x800, 0xf00} {
+			flagSet = append(flagSet, lo|hi)
+		}
+	}
+	counts := []uint32{0, 1025, 1 << 24, 1<<31 + 1, 0xffffffff}
+	cuts := []int{8, 12, -1}
+	type host struct {
+		name string
+		data []byte
+	}
+	for _, t := range countTypes {
+		var hosts []host
+		best := -1
+		for i, f := range cor.Files {
+			d := mut.ShrinkMdat(f.Data, 256)
+			if es := mut.Parse(d); es != nil && findType(es, t) != nil {
+				if best < 0 || len(d) < len(hosts[0].data) {
+					hosts = []host{{f.Name, d}}
+					best = i
+				}
+			}
+		}
+		var sb *corpus.Seed
+		for i := range cor.Boxes {
+			b := &cor.Boxes[i]
+			if b.Type == t && (sb == nil || len(b.Data) < len(sb.Data)) {
+				sb = b
+			}
+		}
+		if sb != nil {
+			hosts = append(hosts, host{sb.Name, sb.Data})
+		}
+		for _, h := range hosts {
+			for _, ver := range []byte{0, 1} {
+				for _, fl := range flagSet {
+					for _, cnt := range counts {
+						for _, cut := range cuts {
+							es := mut.Parse(h.data)
+							n := findType(es, t)
+							if n == nil || n.Container || len(n.Payload) < 8 {
+								continue
+							}
+							n.Payload[0] = ver
+							n.Payload[1], n.Payload[2], n.Payload[3] = byte(fl>>16), byte(fl>>8), byte(fl)
+							n.Payload[4], n.Payload[5], n.Payload[6], n.Payload[7] = byte(cnt>>24), byte(cnt>>16), byte(cnt>>8), byte(cnt)
+							if cut > 0 {
+								if cut >= len(n.Payload) {
+									continue
+								}
+								n.Payload = n.Payload[:cut]
+							}
+							out = append(out, corpus.Seed{Name: h.name + "#lattice-" + t, Kind: "crafted", Data: mut.Serialize(es)})
+						}
+					}
+				}
+			}
+		}
+	}
+	return out
+}
+
+func findType(es []*mut.E, t string) *mut.E {
+	for _, e := range es {
+		if e.Type == t {
+			return e
+		}
+		if e.Container {
+			if n := findType(e.Children, t); n != nil {
+				return n
+			}
+		}
+	}
+	return nil
+}
+
 func removeAll(es []*mut.E, t string) []*mut.E {
 	var out []*mut.E
 	for _, e := range es {
